@@ -62,7 +62,7 @@ table_body_with_properties = table_element_with_property[...]
 table_name = (name('schema') + '.' + name('name')) | (name('name'))
 
 table = _c + (
-    pp.CaselessLiteral("table").suppress()
+    pp.CaselessKeyword("table").suppress()
     + table_name
     + alias('alias')[0, 1]
     + table_settings('settings')[0, 1] + _
@@ -70,7 +70,7 @@ table = _c + (
 ) + end
 
 table_with_properties = _c + (
-    pp.CaselessLiteral("table").suppress()
+    pp.CaselessKeyword("table").suppress()
     + table_name
     + alias('alias')[0, 1]
     + table_settings('settings')[0, 1] + _
